@@ -170,6 +170,7 @@ def main(tier, write_baseline=False):
             "(effect outside the verified functions, e.g. cross-call state): " + f["what"],
             failing_input={"call": f["function"], "source": f["input"]},
         )
+    common.apply_controls(run, tier)
     return run.finish(
         explanation="Deductive: every obligation of contracts/C09.py discharged on the current source, for all strings. "
         "The bounded stand-in is a cross-check only."
